@@ -52,14 +52,14 @@ def plan(tier):
                     iid += 1
     # explicit-rep conversions across rep classes (floating source -> integral target of every width, and back) for a few unit pairs
     cross = [("float", "int64_t"), ("float", "int32_t"), ("double", "int64_t"), ("double", "int32_t"), ("float", "uint64_t"), ("int32_t", "double"), ("int64_t", "float"), ("float", "double"), ("double", "float"),
-             ("int32_t", "int64_t"), ("int64_t", "int32_t")]
+             ("int32_t", "int64_t"), ("int64_t", "int32_t"), ("uint32_t", "int32_t"), ("uint32_t", "int64_t"), ("uint64_t", "int64_t"), ("uint16_t", "int32_t")]
     for (su, ss, so), (du, ds, do) in pairs[: (6 if tier == "quick" else 40)]:
         scale = ss / ds
         off = (so - do) / ds
         if max(abs(scale.numerator), scale.denominator, abs(off.numerator), off.denominator) > 10 ** 6:
             continue
         args = f"{scale.numerator}LL, {scale.denominator}LL, {off.numerator}LL, {off.denominator}LL"
-        for r, t in (cross if tier != "quick" else rnd.sample(cross, 6)):
+        for r, t in (cross if tier != "quick" else rnd.sample(cross, 7)):
             if t.startswith("uint") and (off < 0 or scale < 0):
                 continue
             inst.append({"id": iid, "desc": f"{su}:{r} -> {du}:{t}", "code": f'vfp9::run_convert<{su}, {r}, {du}, {t}, false>(ID, "{su}:{r} -> {du}:{t}", {args}, nrandom, seed ^ ID);'})
@@ -102,20 +102,20 @@ def emit_tu(insts, decls):
     return "\n".join(L) + "\n"
 
 
-def build_and_run(si, insts, decls, flavour, nrandom, dropped):
-    d = core.subdir(f"c09_{flavour}")
+def build_and_run(si, insts, decls, flavour, nrandom, dropped, std="c++14"):
+    d = core.subdir(f"c09_{flavour}_{std.replace('+', 'p')}")
     src = os.path.join(d, f"s{si}.cc")
     exe = os.path.join(d, f"s{si}.exe")
     insts = list(insts)
     for attempt in range(12):
         core.write(src, emit_tu(insts, decls))
-        rc, se = core.build(src, exe, flavour)
+        rc, se = core.build(src, exe, flavour, std=std)
         if rc == 0:
             break
         by, loose = ccmon.attribute(se)
         bad = {k // 10 for k in by}
         if not bad:
-            raise core.Inconclusive(f"c09 shard {si} ({flavour}) failed to compile: {se[:500]}")
+            raise core.Inconclusive(f"c09 shard {si} ({flavour} {std}) failed to compile: {se[:500]}")
         for x in insts:
             if x["id"] in bad:
                 dropped.append({"id": x["id"], "desc": x["desc"], "err": [v for k, v in by.items() if k // 10 == x["id"]][0][0][:200]})
@@ -162,6 +162,18 @@ def probes():
     add("point_compare_quantity", "reject", "bool r = (p == d); (void)r;")
     add("point_compare_point(control)", "accept", "bool r = (p == q) || (p < q); (void)r;")
     add("point_in_quantity_unit_dimension_mismatch", "reject", "auto r = p.in(meters_pt); (void)r;")
+    # unit slots: a point maker names a point unit and must not be accepted where a quantity's unit is asked for, and vice versa
+    add("quantity.in(point_maker)", "reject", "auto r = d.in(kelvins_pt); (void)r;")
+    add("quantity.as(point_maker)", "reject", "auto r = d.as(celsius_pt); (void)r;")
+    add("quantity.coerce_in(point_maker)", "reject", "auto r = d.coerce_in(milli(kelvins_pt)); (void)r;")
+    add("quantity.in<T>(point_maker)", "reject", "auto r = d.in<int>(kelvins_pt); (void)r;")
+    add("length.in(point_maker)", "reject", "auto r = meters(1.0).in(meters_pt); (void)r;")
+    add("point.in(quantity_maker)", "reject", "auto r = q.in(kelvins); (void)r;")
+    add("point.as(quantity_maker)", "reject", "auto r = p.as(celsius_qty); (void)r;")
+    add("quantity.in(quantity_maker)(control)", "accept", "auto r = d.in(kelvins); auto s = d.in(Kelvins{}); auto t = d.in<int>(milli(kelvins)); (void)r; (void)s; (void)t;")
+    add("point.in(point_maker)(control)", "accept", "auto r = q.in(kelvins_pt); auto s = q.in(Kelvins{}); auto t = p.as(celsius_pt); (void)r; (void)s; (void)t;")
+    add("round_as(point_maker, quantity)", "reject", "auto r = round_as(kelvins_pt, d); (void)r;")
+    add("make_quantity_from_point_maker_product", "reject", "auto r = (kelvins_pt * meters)(1.0); (void)r;")
     add("is_convertible_point_quantity", "accept", 'static_assert(!std::is_convertible<QuantityPoint<Kelvins, double>, Quantity<Kelvins, double>>::value && !std::is_convertible<Quantity<Kelvins, double>, QuantityPoint<Kelvins, double>>::value && !std::is_constructible<QuantityPoint<Kelvins, double>, Zero>::value, "vf");')
     return P
 
@@ -175,8 +187,11 @@ def run(chk, which="C09"):
     flav = ["G_trap"] if tier == "quick" else ["G_trap", "Lub_trap", "L_plain"]
     nrandom = 200 if tier == "quick" else 4000
     dropped = []
-    jobs = [(si, sh, fl) for fl in flav for si, sh in enumerate(shards)]
-    results = core.pmap(lambda j: (j[2], build_and_run(j[0], j[1], decls, j[2], nrandom, dropped)), jobs)
+    jobs = [(si, sh, fl, "c++14") for fl in flav for si, sh in enumerate(shards)]
+    # the C++20-only forms (point <=>) : a slice of the shards in quick, all of them in thorough
+    jobs += [(si, [x for x in sh if "run_arith" in x["code"]], "G_trap", "c++20") for si, sh in enumerate(shards) if tier != "quick" or si < 6]
+    jobs = [j for j in jobs if j[1]]
+    results = core.pmap(lambda j: (j[2] + ":" + j[3], build_and_run(j[0], j[1], decls, j[2], nrandom, dropped, std=j[3])), jobs)
     P = probes()
     pre = INC + "#include <type_traits>\n"
     cfgs = [(core.GXX, "c++14"), (core.CLANGXX, "c++20")] if tier == "quick" else core.CONFIGS
@@ -221,6 +236,6 @@ def run(chk, which="C09"):
                        "(integral targets judged only when the true result is an integer within a 2^10 margin; floating targets within 6+2 ulp of the largest term); p-q, p+-d, comparisons within and across units; "
                        "27 compile probes for the non-affine expressions with controls; distinct_nontrivial = instances with judged values + probe kinds")
     chk.notes.update({"instances": len(insts), "values_judged": judged, "probes": nprobe, "rejected_by_library": dropped[:20], "n_rejected": len(dropped)})
-    if len(dropped) > len(insts) * len(flav) * 0.5:
+    if len(dropped) > len(insts) * (len(flav) + 1) * 0.5:
         chk.fail_inconclusive(f"{len(dropped)} instances rejected by the library")
     return chk
